@@ -4,7 +4,7 @@
    a sample of every run (the in-kernel sample), so the extraction itself is checked. *)
 From Coq Require Import List Ascii String Bool Arith NArith ZArith.
 Require Import Show.
-Require V1 V5 V6 V3 V11 A1 D3 M6 M6b.
+Require V1 V5 V6 V3 V11 A1 D3 M6 M6b GS R2.
 Import ListNotations.
 Open Scope string_scope.
 Open Scope list_scope.
@@ -132,8 +132,62 @@ Definition run_dep (op : string) (a : list str) : option str :=
             (op_of (g 0)) (map nat_of_ascii (g 1)) (mkv6 (g 2) (g 3) (g 4))))
   else None.
 
+(* ---- deb822 reader / writer: C07 C08 ---- *)
+Definition show_para (p : R2.para) : str :=
+  unwords [lit "("; show_list hx (R2.order p); show_list (fun k => hx (R2.lookup k (R2.values p))) (R2.order p);
+           show_nat (List.length (R2.values p)); lit ")"].
+Definition show_paras (ps : list R2.para) : str := show_list show_para ps.
+(* the Next loop: every paragraph returned before the end or the first error *)
+Fixpoint next_loop (fuel : nat) (ls : list str) (acc : list R2.para) : list R2.para * bool :=
+  match fuel with
+  | O => (acc, false)
+  | S f => match R2.next R2.empty_para [] ls with
+           | R2.REOF => (acc, true)
+           | R2.RErr => (acc, false)
+           | R2.RPara p rest => next_loop f rest (acc ++ [p])
+           end
+  end.
+(* Paragraph.Set *)
+Definition pset (p : R2.para) (k v : str) : R2.para :=
+  if R2.mem k (R2.values p) then {| R2.order := R2.order p; R2.values := R2.setv k v (R2.values p) |}
+  else {| R2.order := R2.order p ++ [k]; R2.values := R2.values p ++ [(k, v)] |}.
+Fixpoint para_of_args (a : list str) (p : R2.para) : R2.para :=
+  match a with k :: v :: r => para_of_args r (pset p k v) | _ => p end.
+(* Encoder.Encode once per paragraph *)
+Fixpoint enc_paras (ps : list R2.para) : str :=
+  match ps with
+  | [] => []
+  | [p] => R2.write_para p
+  | p :: r => R2.write_para p ++ GS.nl :: enc_paras r
+  end.
+
+Definition run_deb822 (op : string) (a : list str) : option str :=
+  let g n := nth_arg n a in
+  if (op =? "rall") || (op =? "rslice") || (op =? "rdecode") then
+    Some (match R2.read_all (g 0) with Some ps => lit "ok " ++ show_paras ps | None => lit "err" end)
+  else if op =? "rnext" then
+    let ls := GS.lines_of (g 0) in
+    let '(ps, eof) := next_loop (S (List.length ls)) ls [] in
+    Some (show_paras ps ++ (if eof then lit " eof" else lit " err"))
+  else if op =? "wpara" then Some (hx (R2.write_para (para_of_args a R2.empty_para)))
+  else if op =? "wcycle" then
+    Some (match R2.read_all (g 0) with
+          | None => lit "err"
+          | Some ps =>
+              let t1 := enc_paras ps in
+              match R2.read_all t1 with
+              | None => lit "ok " ++ hx t1 ++ lit " err"
+              | Some ps2 =>
+                  let t2 := enc_paras ps2 in
+                  lit "ok " ++ hx t1 ++ sp1 ++ hx t2 ++ sp1 ++
+                  match R2.read_all t2 with Some ps3 => show_paras ps3 | None => lit "err" end
+              end
+          end)
+  else None.
+
 Definition run (op : string) (hexargs : list str) : str :=
   let a := map unhex hexargs in
   match run_version op a with Some r => r | None =>
   match run_dep op a with Some r => r | None =>
-  lit "unknown-op" end end.
+  match run_deb822 op a with Some r => r | None =>
+  lit "unknown-op" end end end.
